@@ -138,5 +138,25 @@ package node
 //@       && same(*cr.CS, old(*cr.CS)) && same(*cr.DS, old(*cr.DS)) && csKept(cr) && dsKept(cr)
 //@   loop 1 invariant[rest] -1 <= rangeindex && 0 <= i && i < len(l.Elems) && emitInv(cr)
 //
+//@ type Namer.Name [C05,C12] pure trusted
+//@   params self
+//@ func value.NewFunction trusted pure
+//@   callers[range;C15] 0 <= node && node < 4294967296 && 0 <= paramCnt && paramCnt < 65536 && 0 <= localCnt && localCnt < 65536
+//
+//@ pred isNamer(n ByteCoder) bool := dyntype(n) == typeid[Name]() || dyntype(n) == typeid[Local]() || dyntype(n) == typeid[Closure]()
+//@ func (Function).byteCode [C05,C12] implements ByteCoder.byteCode
+//@   assumes[unfold] wfAST(f.Body)
+//@ func (Call).byteCode [C05,C12] implements ByteCoder.byteCode
+//@   assumes[unfold] isNamer(c.Name) && wfAST(c.Name) && (forall k :: 0 <= k && k < len(c.Arguments.Elems) ==> exprOK(c.Arguments.Elems[k]))
+//@   loop 0 invariant[args] -1 <= rangeindex && emitInv(cr)
+//@ func (Assign).byteCode [C05,C12] implements ByteCoder.byteCode
+//@   assumes[unfold] exprOK(a.Value) && wfAST(a.VarRef) && (dyntype(a.VarRef) == typeid[Name]() || dyntype(a.VarRef) == typeid[Local]())
+//@ func (UnOp).byteCode [C05,C12] implements ByteCoder.byteCode
+//@   assumes[unfold] exprOK(u.Target) && (u.Op == "-" || u.Op == "#" || u.Op == "!" || u.Op == "~")
+//@ func (Block).byteCode [C05,C12] implements ByteCoder.byteCode
+//@   assumes[unfold] forall k :: 0 <= k && k < len(b.Body) ==> wfAST(b.Body[k])
+//@   requires[sel01] srcsel <= 1
+//@   loop 0 invariant[stmts] -1 <= rangeindex && emitInv(cr)
+//
 //@ canary func (Name).Name
 //@   ensures false
